@@ -268,6 +268,8 @@ class Interp:
         self.effects[key] = {p: env[p] for p in pos if p in touched and p in env}
         self._last_key = key
         self._stack.pop()
+        self.returns = getattr(self, "returns", {})
+        self.returns[key] = list(rets)
         out = Z
         first = True
         for r in rets:
